@@ -375,6 +375,7 @@ class InterpBase:
         return z3.Select(z3.Select(self.st.lel, r), i)
 
     def list_append(self, r, v):
+        self.st.mark_escaped(v)
         n = self.llen(r)
         self.st.lel = z3.Store(self.st.lel, r, z3.Store(self.lel(r), n, v))
         self.st.llen = z3.Store(self.st.llen, r, n + 1)
@@ -406,6 +407,7 @@ class InterpBase:
         return z3.Select(self.st.dlen, r)
 
     def dict_set(self, r, k, v):
+        self.st.mark_escaped(k, v)
         had = self.dhas(r, k)
         self.st.dlen = z3.Store(self.st.dlen, r, z3.If(had, self.dlen(r), self.dlen(r) + 1))
         self.st.dhas = z3.Store(self.st.dhas, r, z3.Store(z3.Select(self.st.dhas, r), k, z3.BoolVal(True)))
